@@ -9,6 +9,8 @@ import (
 	"crypto/sha256"
 	"encoding/json"
 	"fmt"
+	commitmenttypes "github.com/bianjieai/tibc-go/modules/tibc/core/23-commitment/types"
+	ics23 "github.com/cosmos/ics23/go"
 	"sort"
 	"strings"
 
@@ -24,6 +26,7 @@ import (
 	host "github.com/bianjieai/tibc-go/modules/tibc/core/24-host"
 	routingtypes "github.com/bianjieai/tibc-go/modules/tibc/core/26-routing/types"
 
+	"verifharness/lcgen"
 	"verifharness/world"
 )
 
@@ -146,7 +149,7 @@ func (s *Step) Describe() string {
 }
 
 func short(c string) string {
-	return strings.TrimPrefix(c, "chain-")
+	return strings.TrimPrefix(c, "chain")
 }
 
 func shortAddr(a string) string {
@@ -191,9 +194,17 @@ type Sim struct {
 	Tainted      bool
 	// ForceNoRelay makes every send use a direct route (metamorphic twin of a relayed scenario).
 	ForceNoRelay bool
+	RulesSet     map[string][]string // chain -> last accepted rule list (set by the rules op)
 }
 
 type abciEvent = abci.Event
+
+// RulesInForce returns the rule list the harness last saw accepted on the chain (ok=false: none set through
+// the harness yet, the genesis list is in force).
+func (s *Sim) RulesInForce(chain string) ([]string, bool) {
+	r, ok := s.RulesSet[chain]
+	return r, ok
+}
 
 type sentMsg struct {
 	Chain string
@@ -406,12 +417,19 @@ func (s *Sim) Apply(op Op) *Violation {
 		return s.opReplay(op)
 	case "cleanraid":
 		return s.opCleanRaid(op)
-	case "nftissue", "nftmint", "nftxfer", "nftburn", "nftsend":
+	case "nftissue", "nftmint", "nftxfer", "nftburn", "nftsend", "nftforge":
 		return s.opNFT(op)
 	case "mtissue", "mtmint", "mtxfer", "mtburn", "mtsend":
 		return s.opMT(op)
 	case "rules":
 		return s.opRules(op)
+	case "rulesdiscard":
+		return s.opRulesDiscard(op)
+	case "restart":
+		// the node restarts: a fresh application object over the same committed database
+		s.chain(op.A).Restart()
+		s.Labels["restart"]++
+		return nil
 	case "flow":
 		return s.opFlow(op)
 	case "hostile":
@@ -676,7 +694,7 @@ func (s *Sim) ConsensusHeights(on, of string) []int64 {
 
 // Recv alterations.
 var RecvAlters = []string{"", "data", "seq+1", "seq-1", "src", "dst", "swap", "proof-other", "proof-early",
-	"proof-trunc", "proof-flip", "height+1", "height-1", "wrong-prover", "never-sent", "signer", "height-old"}
+	"proof-trunc", "proof-flip", "height+1", "height-1", "wrong-prover", "never-sent", "signer", "height-old", "proof-splice", "src-alias"}
 
 // opRecv: A=packet, B=target selector (0 => next hop that makes sense, 1 => relay, 2 => dest, 3 => any chain C),
 // C=alteration index into RecvAlters (0 = genuine), D = auxiliary.
@@ -817,6 +835,15 @@ func (s *Sim) doRecv(op Op, r *PacketRec, on *world.Chain, alter string, aux int
 		msgPkt.Data = []byte("never sent")
 	case "signer":
 		signer = on.Accounts[[]int{0, world.OutsiderIdx}[mod(aux, 2)]]
+	case "src-alias":
+		// the same source chain name with one character percent-encoded (another string, hence another packet
+		// identity and another receipt key), presented with the genuine proof
+		i := mod(aux, len(p.SourceChain))
+		msgPkt.SourceChain = fmt.Sprintf("%s%%%02x%s", p.SourceChain[:i], p.SourceChain[i], p.SourceChain[i+1:])
+	case "proof-splice":
+		// a packet nobody sent; its proof is spliced below
+		msgPkt.Sequence = p.Sequence + 500 + uint64(mod(aux, 5))
+		msgPkt.Data = []byte("forged by splice")
 	}
 	// the proof is for the key the *message* names, or (odd u) the genuine proof of the original
 	// packet is kept while the message fields are altered
@@ -830,11 +857,28 @@ func (s *Sim) doRecv(op Op, r *PacketRec, on *world.Chain, alter string, aux int
 			keyPkt = p
 			st.Note += "orig-proof"
 		}
+	case "src-alias":
+		keyPkt = p
+		st.Note += "orig-proof"
 	}
 	qh := ph
 	msg, err := s.W.RecvMsg(on.Name, proofFrom, keyPkt, qh, signer.Addr)
 	if err != nil {
 		return nil
+	}
+	if alter == "proof-splice" {
+		// lower level: an honest IAVL proof, from a foreign tree, that the forged commitment sits under the packet's
+		// key; upper level: the prover's genuine multistore proof of its tibc store (taken from the original packet)
+		genuine, err := s.W.RecvMsg(on.Name, proofFrom, p, qh, signer.Addr)
+		if err != nil {
+			return nil
+		}
+		spliced, ok := spliceProof(on, msgPkt, genuine.ProofCommitment)
+		if !ok {
+			return nil
+		}
+		msg.ProofCommitment = spliced
+		proofFrom = ""
 	}
 	msg.Packet = msgPkt
 	switch alter {
@@ -855,6 +899,32 @@ func (s *Sim) doRecv(op Op, r *PacketRec, on *world.Chain, alter string, aux int
 	s.deliver(st, on, signer, msg)
 	s.sent = append(s.sent, sentMsg{on.Name, msg, st})
 	return s.record(st)
+}
+
+// spliceProof builds a two-level proof whose IAVL level comes from a foreign tree holding sha256(pkt.Data) under
+// pkt's commitment key and whose multistore level is the one of the genuine proof.
+func spliceProof(on *world.Chain, pkt packettypes.Packet, genuine []byte) ([]byte, bool) {
+	cdc := on.App.AppCodec()
+	var g commitmenttypes.MerkleProof
+	if err := cdc.Unmarshal(genuine, &g); err != nil || len(g.Proofs) != 2 {
+		return nil, false
+	}
+	ic := lcgen.NewIAVLChain(host.StoreKey)
+	key := host.PacketCommitmentKey(pkt.SourceChain, pkt.DestinationChain, pkt.Sequence)
+	ic.Set(key, Sha(pkt.Data))
+	ic.Set([]byte("filler"), []byte("x"))
+	ver := ic.Commit()
+	fbz, err := ic.Proof(key, ver, func(mp *commitmenttypes.MerkleProof) ([]byte, error) { return cdc.Marshal(mp) })
+	if err != nil {
+		return nil, false
+	}
+	var f commitmenttypes.MerkleProof
+	if err := cdc.Unmarshal(fbz, &f); err != nil || len(f.Proofs) != 2 {
+		return nil, false
+	}
+	out := commitmenttypes.MerkleProof{Proofs: []*ics23.CommitmentProof{f.Proofs[0], g.Proofs[1]}}
+	bz, err := cdc.Marshal(&out)
+	return bz, err == nil
 }
 
 var AckAlters = []string{"", "ack-bytes", "ack-swap", "data", "seq+1", "seq-1", "proof-other", "proof-trunc", "proof-flip",
@@ -1326,6 +1396,20 @@ func (s *Sim) opCleanRaid(op Op) *Violation {
 	return nil
 }
 
+// opRulesDiscard executes a rule change on a branch of the state that is then thrown away, as happens to the
+// first message of a governance proposal whose second message fails (and to every CheckTx / simulation): it
+// must leave no trace, neither in the store nor in anything the application keeps in memory.
+func (s *Sim) opRulesDiscard(op Op) *Violation {
+	c := s.chain(op.A)
+	sets := RuleSets(s.W.Order)
+	rs := sets[mod(op.B+8*int(op.U/3), len(sets))]
+	ctx, _ := c.Branch()
+	if err := c.App.TIBCKeeper.RoutingKeeper.SetRoutingRules(ctx, rs); err == nil {
+		s.Labels["rule-change-executed-and-discarded"]++
+	}
+	return nil
+}
+
 // opRules sets routing rules on a chain through the keeper (as a passed proposal would).
 // A=chain, B=rule set index.
 func (s *Sim) opRules(op Op) *Violation {
@@ -1342,6 +1426,11 @@ func (s *Sim) opRules(op Op) *Violation {
 	if err := c.App.TIBCKeeper.RoutingKeeper.SetRoutingRules(ctx, rs); err == nil {
 		write()
 		st.OK = true
+		// the harness's own record of the rule list in force (the last accepted one)
+		if s.RulesSet == nil {
+			s.RulesSet = map[string][]string{}
+		}
+		s.RulesSet[c.Name] = append([]string{}, rs...)
 	} else {
 		st.Res = &abci.ExecTxResult{Code: 1, Log: err.Error()}
 	}
